@@ -1,4 +1,4 @@
 SPECIFICATION Spec
 CONSTANTS
   Emit = TRUE
-INVARIANTS WellFormed UniqueNames
+INVARIANTS WellFormed BareWellFormed UniqueNames
